@@ -1,7 +1,8 @@
 """C27 — the bytecode cache never yields stale/foreign code and tolerates
 interrupted writes: crash-point, truncation, foreign-entry and shared-directory
 fault enumeration on FileSystemBytecodeCache, failing-client enumeration on
-MemcachedBytecodeCache."""
+MemcachedBytecodeCache, near-identical sources (every single-character edit and
+structured edits that weak checksums do not notice) through both."""
 from __future__ import annotations
 
 import importlib.util
@@ -18,7 +19,8 @@ from vt.mon import c27_child as K
 
 PID = "C27"
 LEVEL = "fault_enumeration"
-TECHNIQUE = "crash-point / truncation-offset / fault-script / two-writer-schedule enumeration with a recompile oracle"
+TECHNIQUE = ("crash-point / truncation-offset / fault-script / two-writer-schedule / source-edit enumeration "
+             "with a recompile oracle")
 RULE = ("(a) crash points: one template load through FileSystemBytecodeCache is instrumented (audit "
         "events open/tempfile.mkstemp/os.rename/os.remove in the cache dir + before/torn/after each "
         "write that Bucket.write_bytecode makes + entering/leaving it); at EVERY event k of that load "
@@ -49,7 +51,23 @@ RULE = ("(a) crash points: one template load through FileSystemBytecodeCache is 
         "(alternating), every load by a fresh environment, under the configurations default / "
         "keep_trailing_newline / trim_blocks+lstrip_blocks / newline_sequence=CRLF+"
         "keep_trailing_newline (quick: rotating per edit, all four for edits of the first or last "
-        "character; thorough: all four). Oracle everywhere: result == load+render of the "
+        "character; thorough: all four). (g) near-identical sources, STRUCTURED edits chosen against "
+        "weak invalidation checksums without knowing which one is in use (length, sum / xor of the "
+        "code units, position-weighted sums, digit sums, hashes of a prefix / of the sorted lines / "
+        "of the case-folded text ...): for three templates of 75-100 characters (numbers in "
+        "expressions, loop bounds and data; string literals, mixed-case words and mirrored letter "
+        "pairs; one construct per line) every transposition of two adjacent characters, "
+        "transpositions of characters 2 / 7 / half the text apart, two adjacent transpositions at "
+        "once (all mirrored pairs xy..yx, others 2 or 5 apart), +k on one letter or digit and -k on "
+        "a later one (k = +-1; +-1..3 thorough), +k/-2k/+k on three equally spaced and +2k/-3k/+k, "
+        "+k/-3k/+2k on three unequally spaced letters / digits (the change stays inside digit / "
+        "lower / upper case), every digit run of 2-4 digits rewritten to equal-length digit strings "
+        "with the same digit sum, whole lines exchanged / rotated / reversed, two tags exchanged, "
+        "two letters changing case in opposite or in the same direction, one character moved 2 / 3 "
+        "places or to the start / end; plus a 10 KB source with one character replaced at its ends, "
+        "middle and around offsets 64..8192. Only edits that change what the source renders (or "
+        "whether it compiles) are run, through the same load A / load B / load A history, "
+        "configurations and backends as (e). Oracle everywhere: result == load+render of the "
         "CURRENT source compiled without any cache in the LOADING environment; no exception (except "
         "the client's own one when ignore_memcache_errors is off). distinct = distinct (part, "
         "template, loader, fault position/kind or schedule) cases")
@@ -67,8 +85,11 @@ ASSUMPTIONS = [
     "write calls incl. one torn write per call); each writer is stopped at most once; two writers and "
     "one key; the writers are threads of one process that never run at the same time (a deterministic "
     "schedule), which is what two processes interleaved by the OS look like to the file system",
-    "near-identical sources are one edit apart and at most 45 characters long; the edit alphabet is "
+    "near-identical sources (e) are one edit apart and at most 45 characters long; the edit alphabet is "
     "the 25 characters listed in RULE (no lone surrogates, no NUL)",
+    "structured edits (g) are the listed families on three ~100-character ASCII templates and one "
+    "10 KB template; a checksum that is blind to some other relation between two sources (e.g. a "
+    "truncated cryptographic hash with a constructed collision) is not found by them",
 ]
 NSHARDS = {"quick": 16, "thorough": 16}
 BUDGET_S = {"quick": 90, "thorough": 900}
@@ -86,6 +107,19 @@ FLOORS = {
                            "edit_class_ins:unicode-line-boundary": 200,
                            "edit_class_sub:newline": 75, "edit_class_ins:newline": 75,
                            "edit_class_del:newline": 3, "edit_at-end": 100,
+                           "sedit_cases": 1200, "sedit_loads": 3600,
+                           "sedit_changes_the_rendering": 1200, "sedit_both_sources_render": 600,
+                           "sedit_class_swap-adjacent": 90, "sedit_class_swap-distant": 230,
+                           "sedit_class_double-swap": 160, "sedit_class_double-swap:mirrored": 25,
+                           "sedit_class_compensate-2": 230,
+                           "sedit_class_compensate-3:equally-spaced": 60,
+                           "sedit_class_compensate-3:unequally-spaced": 60,
+                           "sedit_class_digit-sum-rewrite": 25, "sedit_class_line-reorder": 10,
+                           "sedit_class_tag-reorder": 12,
+                           "sedit_class_case-swap:opposite-direction": 8,
+                           "sedit_class_case-swap:same-direction": 70,
+                           "sedit_class_move-char": 220,
+                           "sedit_class_long-source-one-character": 12,
                            "duel_cases": 88, "duel_loads": 300, "duel_first_writer_interrupted": 88,
                            "duel_both_writers_interrupted": 32,
                            "duel_second_writer_complete_in_between": 48,
@@ -105,6 +139,21 @@ FLOORS = {
                               "edit_class_ins:unicode-line-boundary": 800,
                               "edit_class_sub:newline": 300, "edit_class_ins:newline": 300,
                               "edit_class_del:newline": 8, "edit_at-end": 130,
+                              "sedit_cases": 12000, "sedit_loads": 36000,
+                              "sedit_changes_the_rendering": 12000,
+                              "sedit_both_sources_render": 5500,
+                              "sedit_class_swap-adjacent": 280, "sedit_class_swap-distant": 2100,
+                              "sedit_class_double-swap": 1300,
+                              "sedit_class_double-swap:mirrored": 85,
+                              "sedit_class_compensate-2": 4000,
+                              "sedit_class_compensate-3:equally-spaced": 500,
+                              "sedit_class_compensate-3:unequally-spaced": 350,
+                              "sedit_class_digit-sum-rewrite": 190, "sedit_class_line-reorder": 33,
+                              "sedit_class_tag-reorder": 38,
+                              "sedit_class_case-swap:opposite-direction": 80,
+                              "sedit_class_case-swap:same-direction": 440,
+                              "sedit_class_move-char": 1900,
+                              "sedit_class_long-source-one-character": 36,
                               "duel_cases": 1800, "duel_loads": 6000,
                               "duel_first_writer_interrupted": 1800,
                               "duel_both_writers_interrupted": 1600,
@@ -1152,28 +1201,33 @@ def edit_where(base, kind, pos):
     return "inside"
 
 
-def edit_case(ctx, store, case):
+def edit_history(ctx, store, a, b, case, cls, where, descr, prefix="edit"):
     """load(A) -> source becomes B -> load(B) -> source back to A -> load(A)
     through ONE bytecode cache, every load by a fresh environment of the same
-    configuration, A and B one character apart."""
+    configuration.  Returns False when A and B render the same and
+    ``prefix`` is not 'edit' (such a pair cannot show a stale entry)."""
     from jinja2 import DictLoader, FileSystemBytecodeCache, MemcachedBytecodeCache
 
-    a = EDIT_BASES[case["base"]]
-    kind, pos, ch = case["kind"], case["pos"], case["ch"]
-    b = apply_edit(a, kind, pos, ch)
-    if a == b:
-        return
     opts = EDIT_CONFIGS[case["config"]]
     exp = {}
     for src in (a, b):
-        exp[src] = K.load_render(K.make_env(DictLoader({NAME: src}), None, opts), NAME)
-    # class of the character that comes in (sub / ins) or goes away (del)
-    cls = f"{kind}:{char_class(ch if kind != 'del' else a[pos])}"
-    ctx.count("edit_cases")
-    ctx.count("edit_class_" + cls)
-    ctx.count("edit_" + edit_where(a, kind, pos))
+        ek = (src, case["config"])
+        if ek not in _edit_expected:
+            if len(_edit_expected) > 4000:
+                _edit_expected.clear()
+            _edit_expected[ek] = K.load_render(K.make_env(DictLoader({NAME: src}), None, opts), NAME)
+        exp[src] = _edit_expected[ek]
+    if prefix != "edit" and same(exp[a], exp[b]):
+        ctx.count(prefix + "_rendering_unchanged_not_run")
+        return False
+    ctx.count(prefix + "_cases")
+    ctx.count(f"{prefix}_class_{cls}")
+    if where:
+        ctx.count(f"{prefix}_{where}")
     if not same(exp[a], exp[b]):
-        ctx.count("edit_changes_the_rendering")
+        ctx.count(prefix + "_changes_the_rendering")
+        if exp[a][0] == "ok" and exp[b][0] == "ok":
+            ctx.count(prefix + "_both_sources_render")
     cache_dir = None
     if case["backend"] == "fs":
         cache_dir, _ = store.fresh()
@@ -1187,12 +1241,12 @@ def edit_case(ctx, store, case):
             mapping[NAME] = src
             r = K.load_render(K.make_env(DictLoader(mapping), mk(), opts), NAME)
             ctx.ev()
-            ctx.count("edit_loads")
+            ctx.count(prefix + "_loads")
             if same(r, exp[src]):
                 continue
             prev = (b, a, b)[step]
             if same(r, exp[prev]):
-                key = f"near-identical-source:stale-code:{cls}:{edit_where(a, kind, pos)}"
+                key = f"near-identical-source:stale-code:{cls}" + (f":{where}" if where else "")
             elif r[0] == "exc":
                 key = f"near-identical-source:raises:{r[2]}:{cls}"
             else:
@@ -1200,13 +1254,29 @@ def edit_case(ctx, store, case):
             if case["config"] != "default":
                 key += ":" + case["config"]
             ctx.violation(key,
-                          f"source {a!r} edited to {b!r} ({kind} at {pos}) and back, one "
+                          f"source {a!r} edited to {b!r} ({descr}) and back, one "
                           f"{case['backend']} bytecode cache, configuration {opts}: load #{step + 1} "
                           f"of {src!r} gave {r}; compiling that source gives {exp[src]}", case)
-            return
+            return True
     finally:
         if cache_dir is not None:
             store.drop(cache_dir)
+    return True
+
+
+_edit_expected = {}
+
+
+def edit_case(ctx, store, case):
+    """A and B one character apart."""
+    a = EDIT_BASES[case["base"]]
+    kind, pos, ch = case["kind"], case["pos"], case["ch"]
+    b = apply_edit(a, kind, pos, ch)
+    if a == b:
+        return
+    # class of the character that comes in (sub / ins) or goes away (del)
+    cls = f"{kind}:{char_class(ch if kind != 'del' else a[pos])}"
+    edit_history(ctx, store, a, b, case, cls, edit_where(a, kind, pos), f"{kind} at {pos}")
 
 
 def part_edits(ctx, store, quick):
@@ -1236,6 +1306,66 @@ def part_edits(ctx, store, quick):
                     "config": "default", "backend": "fs"})
 
 
+# ------------------------- (g) near-identical sources (structured edits)
+SEDIT_BASES = {
+    "numbers": "Total: {{ 121 }} of {{ 3405 }}\n{% for i in range(13) %}{{ i }},{% endfor %}\n"
+               "ID-2031 {{ 7 * 16 }}\n",
+    "words": "{% set t = 'cab fade' %}{{ t }} Abc dEf ab-ba\n{{ x }} and {{ 'Zed'|lower }}\nlast line",
+    "lines": "First {{ x }}\n{% if x %}seCond{% endif %}\n{{ 'third' }}\n{# note #}\nfourth\n",
+}
+LONG_BASE = "".join(f"row {i:04d} lorem ipsum dolor sit amet" + (" {{ x }}" if i % 16 == 0 else "")
+                    + "\n" for i in range(290))
+
+
+def sedit_case(ctx, store, case):
+    """A and B differ by one structured edit (same length, mostly the same
+    multiset of characters / sum of code units / set of lines)."""
+    if case["base"] == "long":
+        a = LONG_BASE
+        descr = f"one character replaced at offset {case['params'][0]} of {len(a)}"
+    else:
+        a = SEDIT_BASES[case["base"]]
+        descr = f"{case['klass']} {case['params']}"
+    b = case["b"]
+    return edit_history(ctx, store, a, b, case, case["klass"], None, descr, prefix="sedit")
+
+
+def sedit_variants(quick):
+    from vt.gen import c27_sedits as S
+
+    for bname, base in SEDIT_BASES.items():
+        for klass, params, new in S.variants(base, quick):
+            yield bname, klass, params, new
+    for pos in S.long_source_positions(len(LONG_BASE)):
+        ch = "#" if LONG_BASE[pos] != "#" else "+"
+        yield "long", "long-source-one-character", [pos], LONG_BASE[:pos] + ch + LONG_BASE[pos + 1:]
+
+
+def part_sedits(ctx, store, quick):
+    """quick: every structured edit once, configuration and backend rotating
+    from edit to edit; thorough: every edit under every configuration."""
+    confs = list(EDIT_CONFIGS)
+    idx = 0
+    for bname, klass, params, new in sedit_variants(quick):
+        idx += 1
+        if not ctx.mine(idx):
+            continue
+        for ci, conf in enumerate(confs):
+            if quick and ci != (idx // 3) % len(confs):
+                continue
+            if ctx.out_of_time():
+                ctx.inconc("time box hit inside the structured-edit enumeration")
+                return
+            case = {"part": "sedit", "base": bname, "klass": klass, "params": params, "b": new,
+                    "config": conf, "backend": EDIT_BACKENDS[(idx // 5 + ci) % 2]}
+            if sedit_case(ctx, store, case):
+                ctx.dist(("sedit", bname, klass, params, conf))
+    if ctx.shard == 0:
+        b = SEDIT_BASES["numbers"]
+        ctx.sample({"part": "sedit", "base": "numbers", "klass": "swap-adjacent", "params": [10],
+                    "b": b[:10] + b[11] + b[10] + b[12:], "config": "default", "backend": "fs"})
+
+
 # ----------------------------------------------------------------- driver
 def warm():
     """Import and exercise everything once in the harness process so that
@@ -1258,6 +1388,7 @@ def run(ctx):
                          ("shared", lambda: part_shared(ctx, store, quick)),
                          ("memcached", lambda: part_memcached(ctx, quick)),
                          ("edits", lambda: part_edits(ctx, store, quick)),
+                         ("sedits", lambda: part_sedits(ctx, store, quick)),
                          ("duel", lambda: part_duel(ctx, store, quick)),
                          ("real_deaths", lambda: part_crash(ctx, store, quick, real=True))):
             t0 = ctx.elapsed()
@@ -1280,6 +1411,8 @@ def replay(ctx, case):
             mem_script(ctx, case)
         elif part == "edit":
             edit_case(ctx, store, case)
+        elif part == "sedit":
+            sedit_case(ctx, store, case)
         elif part == "duel":
             duel_case(ctx, store, case)
         else:
